@@ -145,6 +145,42 @@ def run(ctx):
                 return evs
             vlib.selftest_rejects(ctx, sd, "Trace_Bloom", "Trace_Bloom_obs.cfg", tr, lost_bit)
         _t(ctx, "R3 record + trace validation")
+    if only != "race":
+        # ---- concurrent no-false-negative stage: atomicity of Add's read-modify-write (clean under the race detector)
+        ATOM = "SPECIFICATION Spec\nCONSTANTS\n  MaxThreads = %d\n  Variant = \"%s\"\nINVARIANTS Inv_LabelSound Inv_C31_AddedStaysContained\nCHECK_DEADLOCK FALSE\n"
+        open(os.path.join(sd, "atom_ok.cfg"), "w").write(ATOM % (3 if q else 4, "one-section"))
+        cscen = ctx.path("conc-scenarios.ndjson")
+        ga = ctx.tlc(sd, "BloomAtomicity", "atom_ok.cfg", workers=1, timeout=300, behaviours_out=cscen)
+        open(os.path.join(sd, "atom_split.cfg"), "w").write(ATOM % (3, "split"))
+        gs = ctx.tlc(sd, "BloomAtomicity", "atom_split.cfg", workers=1, timeout=300, count=False, allow=("invariant",))
+        if gs.error == "invariant:Inv_C31_AddedStaysContained":
+            ctx.cov(model_counterexample_split_read_modify_write="Inv_C31_AddedStaysContained violated: two Adds on one "
+                    "byte lose a bit when the read and the write are in different critical sections")
+        elif gs.ok:
+            ctx.broken.append("BloomAtomicity: the split read-modify-write variant loses no bit in the model: model is wrong")
+        if ga.ok and ga.behaviours == 0:
+            ctx.broken.append("BloomAtomicity exported no scenario")
+        cexe = ctx.go_build("vh-bloom")
+        ctr = os.path.join(sd, "trace.ndjson")
+        rc = ctx.vh(cexe, ["conc", cscen, 1500 if q else 6000, ctx.seed, ctr], timeout=900)
+        nev = int(rc.stats.get("events", 0))
+        stc, _ = vlib.validate_trace(ctx, sd, "Trace_BloomConc", "Trace_BloomConc.cfg", ctr, nev, "C31/concurrent",
+                                     divergence_is_violation=False, what="concurrent Add/MayContain rounds on the real filter",
+                                     timeout=900)
+        if stc == "accepted":
+            ctx.cov(traces_validated_against_impl=nev, evaluations=int(rc.stats.get("answers", 0)),
+                    concurrent_rounds=nev, concurrent_adds=int(rc.stats.get("adds", 0)))
+        elif stc == "rejected":
+            ctx.broken.append("concurrent-round trace was not consumed by Trace_BloomConc")
+        if not q and stc == "accepted":
+            def lost_bit_round(evs):
+                for e in evs:
+                    if len(e["st"]["bits"]) >= 2:
+                        e["st"]["bits"] = e["st"]["bits"][1:]
+                        break
+                return evs
+            vlib.selftest_rejects(ctx, sd, "Trace_BloomConc", "Trace_BloomConc.cfg", ctr, lost_bit_round)
+        _t(ctx, "concurrent no-false-negative rounds")
     if only != "seq":
         # ---- race half: scenarios enumerated by TLC from the lock-discipline table, run under the race detector
         rexe = ctx.go_build("vh-bloom", race=True)
@@ -171,4 +207,7 @@ def run(ctx):
                  "stub hashers, comparing MayContain answers and the bit set; distinct = distinct (configuration, source bits, "
                  "action, key); plus simulated long behaviours; plus random real histories (real hashers, sizes 5..2048 bytes) "
                  "validated by TLC. Race half: every multiset of 2 (thorough: 3) operation classes of the lock-discipline table "
-                 "run with real goroutines under the race detector")
+                 "run with real goroutines under the race detector. Concurrent no-false-negative stage: every scenario of "
+                 "BloomAtomicity.tla (2-3(4) goroutines; bits in one byte / same bit / different bytes, imposed through a stub "
+                 "hasher; plus real hashers on 8/16/64-byte filters) run for many rounds from a start barrier, answers and final "
+                 "bits of every round judged by TLC")
